@@ -87,4 +87,37 @@ def liftJudge (f : Json → Json → Except String Verdict) : Judge := fun i o =
   | .ok v => v
   | .error e => badInput e
 
+
+partial def loop (h : IO.FS.Stream) (out : IO.FS.Stream) (j : Judge) : IO Unit := do
+  let line ← h.getLine
+  if line.isEmpty then return ()
+  if line.trimAscii.isEmpty then
+    loop h out j
+  else
+    let v : Json := match Json.parse line with
+      | .error e => (badInput ("json: " ++ e)).toJson Json.null
+      | .ok c =>
+        let id := (c.getObjVal? "id").toOption.getD Json.null
+        match c.getObjVal? "input", c.getObjVal? "obs" with
+        | .ok i, .ok o => (j i o).toJson id
+        | _, _ => (badInput "missing input/obs").toJson id
+    out.putStrLn v.compress
+    loop h out j
+
+/-- `egjudge-Cxx <judge-name>`: reads harness lines `{"id":…,"input":…,"obs":…}` on stdin,
+evaluates the Lean model and the executable specification on each, prints one verdict
+line per case. -/
+def runMain (judges : List (String × Judge)) (args : List String) : IO UInt32 := do
+  match args with
+  | [p] =>
+    match judges.lookup p with
+    | some j =>
+      let stdin ← IO.getStdin
+      let stdout ← IO.getStdout
+      loop stdin stdout j
+      stdout.flush
+      return 0
+    | none => IO.eprintln s!"egjudge: no judge named {p}"; return 2
+  | _ => IO.eprintln "usage: egjudge-Cxx <judge-name>"; return 2
+
 end Driver
